@@ -231,6 +231,22 @@ def check_pair(case, ctx=None):
     if changed < 96:
         raise V('random-bits-not-embedded', 'effective-bits=%d' % changed,
                 'only %d of the %d random bits requested influence the id' % (changed, nbits), rep)
+    # "whatever the random source returns": two issues inside one window differ even when the
+    # source answers them differently. Neighbouring counter values under the same output ...
+    base = (c + a) & 0xffffff
+    near = {}
+    for j in range(24):
+        near[issue(server, src, base ^ (1 << j), mode)] = base ^ (1 << j)
+    for dlt in (1, 2, 3, 255, 256, 65536):
+        near[issue(server, src, base + dlt, mode)] = (base + dlt) & 0xffffff
+        near[issue(server, src, base - dlt, mode)] = (base - dlt) & 0xffffff
+    # ... against this counter value under every one-bit variation of the output
+    for bit in range(nbits):
+        x = issue(server, src, base, mode, flip=bit)
+        if x in near and near[x] != base:
+            raise V('duplicate-under-varying-source', 'one-bit',
+                    'counter %d with source bit %d flipped and counter %d with the plain source '
+                    'both give %r' % (base, bit, near[x], x), rep)
     # the counter after an issue moved on by one (mod 2^24)
     if ctx:
         nt = (c + a) // PERIOD != (c + b) // PERIOD or len(set(r)) <= 3 or (b - a) > 65536
